@@ -15,3 +15,55 @@ def register(claim):
         'reference tables in /verif/specs/c14_*.json.  Not decided: behaviour of MuJoCo\'s own '
         'XML compiler; numeric content of loaded arrays.',
         'must-call path rule + finite-domain guard table + def-use provenance table', 'DESIGN.md §3 C14')
+
+  claim('C09', 'proof',
+        '30 polynomial identities between repo functions (associativity/identity/inverse of '
+        'Transform composition, quaternion product vs successive rotation vs 3x3 form, '
+        'motion/force duality, kinetic-energy invariance of inertia transport, spatial cross '
+        'antisymmetry/duality, norm multiplicativity, Euler construction, numpy twins, CoM round '
+        'trip, adjugate inverse) decided by algebraic value numbering of the functions\' ASTs: both '
+        'sides reduce to the same rational-function normal form, so each identity holds for all real '
+        'inputs -- strictly more than lattice sampling.  obligations = identities; discharged = '
+        'identities whose normal forms coincide.',
+        'Trusted: python ast, the polynomial normal-form arithmetic (exact Fractions), the primitive '
+        'table (dot, cross, array, @, transpose).  Not decided: from_to (needs reduction modulo unit '
+        'norm) and quat_to_euler (inverse trig).',
+        'algebraic value numbering (polynomial normal forms) of straight-line AST', 'DESIGN.md §3 C09')
+  claim('C11', 'other',
+        'Static equivalence of actuator.to_tau with the stated force law (clip ctrl -> gain + geared '
+        'position/velocity bias -> clip force -> gear -> scatter-add by dof id, exact zero elsewhere, '
+        'zeros without actuators) as normal forms over symbolic inputs for index patterns with one, '
+        'several and no actuators per joint; plus def-use provenance of the loader\'s actuator table.',
+        'Trusted: python ast, AVN normal form, clip as uninterpreted atom, reference formula B.3. '
+        'Monotonicity/constancy outside the control range are corollaries, argued not checked. '
+        'Numeric agreement with MuJoCo is not run.',
+        'algebraic value numbering vs reference formula + def-use provenance', 'DESIGN.md §3 C11')
+  claim('C18', 'other',
+        'Static equivalence: from init_state, sequences of update() over partitions of symbolic '
+        'samples (1-2 batch axes, nested leaves, symbolic real weights) reduce to exactly the '
+        'population count / mean / summed squared deviation as rational functions; one update from '
+        'a symbolic state equals the batched Welford step on all weights x psum variants; std '
+        'clipping; normalize/denormalize are inverse and leave non-float leaves untouched.',
+        'Trusted: python ast, AVN normal form, psum as linear uninterpreted atom.  Instantiated '
+        'partitions are finite (n <= 6); generalisation rests on the pairwise-update identity. '
+        'Floating-point cancellation is not decided.',
+        'algebraic value numbering vs population definition', 'DESIGN.md §3 C18')
+  claim('C19', 'other',
+        'Static equivalence of compute_gae with the defining GAE lambda-sum (explicit sum, not a '
+        'recurrence) as polynomial normal forms in symbolic rewards, values, bootstrap, masks, lambda '
+        'and discount, with stop_gradient on both outputs; thorough tier covers every (T, B) with '
+        'T <= 12, B <= 4, i.e. the whole structural quantifier, for all real inputs including mask '
+        'and lambda/discount end points.',
+        'Trusted: python ast, AVN normal form, lax.scan unrolling semantics (reverse order, stacked '
+        'outputs), reference formula B.7.',
+        'algebraic value numbering vs reference formula, exhaustive in (T,B)', 'DESIGN.md §3 C19')
+  claim('C20', 'other',
+        'Static equivalence of the tanh-normal distribution (bijector, normal density/sample/mode/'
+        'entropy, create_dist, ParametricDistribution methods, constructors included) with the '
+        'stated formulas, and of the PPO inference function (network opaque) with the stated '
+        'dataflow: squashed sample, log-prob of the pre-squash action from the same logits, raw '
+        'action, mode when deterministic, observations preprocessed before the network.',
+        'Trusted: python ast, AVN normal form, log/softplus/tanh/normal noise as uninterpreted '
+        'atoms, reference formulas B.8.  Floating-point accuracy of softplus at large |x| and the '
+        'range of tanh are not decided.',
+        'algebraic value numbering vs reference formulas + opaque-callee provenance', 'DESIGN.md §3 C20')
